@@ -107,6 +107,10 @@ def _convert(j, tracker, parent=None):
     n.init_style = j.get('init')
     n.is_postfix = j.get('isPostfix')
     n.has_else = j.get('hasElse')
+    if n.kind == 'CXXRecordDecl' and j.get('bases'):
+        # the base classes of a record, kept in the (otherwise unused) type fields
+        n.type = 'bases:' + ';'.join((b.get('type') or {}).get('qualType', '?') for b in j['bases'])
+        n.dtype = 'bases:' + ';'.join((b.get('type') or {}).get('desugaredQualType') or (b.get('type') or {}).get('qualType', '?') for b in j['bases'])
     for c in j.get('inner', []) or []:
         if not c:           # clang prints {} for absent optional children
             k = N()
